@@ -114,6 +114,13 @@ class ProbeOut(base.Base):
     eps: jax.Array
     seq: jax.Array
     h: jax.Array  # node hash AFTER the step that produced this output
+    vec: jax.Array  # a leaf with MORE THAN ONE element per message: [h mod 97, seq + 1] (a window is an array of these; element-wise vs message-wise handling shows)
+
+
+def probe_out(nid, eps, seq, h) -> "ProbeOut":
+    h = jnp.asarray(h, dtype=jnp.int32)
+    seq = jnp.asarray(seq, dtype=jnp.int32)
+    return ProbeOut(nid=jnp.asarray(nid, dtype=jnp.int32), eps=jnp.asarray(eps, dtype=jnp.int32), seq=seq, h=h, vec=jnp.stack([h % 97, seq + 1]).astype(jnp.int32))
 
 
 @struct.dataclass
@@ -212,7 +219,7 @@ class ProbeNode(BaseNode):
         return ProbeState(h=jnp.int32(self.nid + 1))
 
     def init_output(self, rng=None, graph_state=None) -> ProbeOut:
-        return ProbeOut(nid=jnp.int32(self.nid), eps=jnp.int32(-1), seq=jnp.int32(-1), h=jnp.int32(0))
+        return probe_out(self.nid, -1, -1, 0)
 
     def step(self, step_state: base.StepState):
         ss = step_state
@@ -223,7 +230,7 @@ class ProbeNode(BaseNode):
         for name in names:
             i = ss.inputs[name]
             d = i.data
-            ph = (d.nid * 7 + (d.eps + 1) * 13 + (d.seq + 1) * 17 + d.h) % MOD
+            ph = (d.nid * 7 + (d.eps + 1) * 13 + (d.seq + 1) * 17 + d.h + 3 * d.vec[..., 0] + 5 * d.vec[..., 1]) % MOD
             sq = jnp.maximum(i.seq, -1) + 1
             acc = (acc + jnp.sum((ph + sq) % MOD)) % MOD
             flat += [i.seq, i.ts_sent, i.ts_recv, d.nid, d.eps, d.seq, d.h]
@@ -238,7 +245,7 @@ class ProbeNode(BaseNode):
                 jax.debug.callback(fn, eps, seq, ss.ts, ss.rng, ss.params.p, h, new_h, *flat, ordered=True)
             else:
                 _host_log(self.nid, names, eps, seq, ss.ts, ss.rng, ss.params.p, h, new_h, *flat)
-        out = ProbeOut(nid=jnp.int32(self.nid), eps=eps, seq=seq, h=new_h)
+        out = probe_out(self.nid, eps, seq, new_h)
         new_ss = ss.replace(rng=new_rng, state=ProbeState(h=new_h))
         return new_ss, out
 
